@@ -82,7 +82,7 @@ type c09ToolList struct {
 	Shape  string        `json:"shape"` // alternate|distinct|mixed (how lists are dealt to the runs; informational)
 }
 
-func c09IsOptKind(kind string) bool { return kind == "optshare" || kind == "toollist" }
+func c09IsOptKind(kind string) bool { return kind == "optshare" || kind == "toollist" || kind == "cbshare" || kind == "inflight" }
 
 // ---- generators ----
 
@@ -953,7 +953,17 @@ func c09EvaluateX(ctx *vh.Ctx, c *c09Case) error {
 	reps := c09Reps(c)
 	// ---- model ----
 	var oc any
-	if c.Kind == "optshare" {
+	if c.Kind == "inflight" {
+		if c.FL == nil {
+			return fmt.Errorf("inflight case without description")
+		}
+		oc = c09FlightOracleCase(c)
+	} else if c.Kind == "cbshare" {
+		if c.CBS == nil {
+			return fmt.Errorf("cbshare case without description")
+		}
+		oc = c09CbOracleCase(c)
+	} else if c.Kind == "optshare" {
 		if c.Opt == nil {
 			return fmt.Errorf("optshare case without description")
 		}
@@ -983,6 +993,9 @@ func c09EvaluateX(ctx *vh.Ctx, c *c09Case) error {
 		if c.Kind == "toollist" {
 			return ans.Alone[i*reps+r]
 		}
+		if c.Kind == "cbshare" {
+			return c09CbExpected(c, i, ans.Alone[i])
+		}
 		return ans.Alone[i]
 	}
 
@@ -993,9 +1006,15 @@ func c09EvaluateX(ctx *vh.Ctx, c *c09Case) error {
 		ctx.Res.Dist("paradigm:" + k.Paradigm)
 	}
 	ctx.Res.Dist("kind:" + c.Kind)
-	ctx.Res.Dist(fmt.Sprintf("goroutines:%d", len(c.Calls)))
+	if c.Kind != "inflight" {
+		ctx.Res.Dist(fmt.Sprintf("goroutines:%d", len(c.Calls)))
+	}
 	shape := ""
-	if c.Kind == "optshare" {
+	if c.Kind == "inflight" {
+		shape = c09FlightAccount(ctx, c)
+	} else if c.Kind == "cbshare" {
+		shape = c09CbAccount(ctx, c)
+	} else if c.Kind == "optshare" {
 		o := c.Opt
 		nested := false
 		for _, n := range o.Nodes {
@@ -1079,7 +1098,7 @@ func c09EvaluateX(ctx *vh.Ctx, c *c09Case) error {
 	key := fmt.Sprintf("%s/%s/g%d/r%d/%d", c.Kind, shape, len(c.Calls), reps, len(pars))
 	nontrivial := false
 	defer func() { ctx.Res.Count(key, nontrivial) }()
-	ctx.Res.Sample(map[string]any{"kind": c.Kind, "goroutines": len(c.Calls), "reps": reps, "opt": c.Opt, "tl": c.TL, "calls": c.Calls[:1]})
+	ctx.Res.Sample(map[string]any{"kind": c.Kind, "goroutines": len(c.Calls), "reps": reps, "opt": c.Opt, "tl": c.TL, "cbs": c.CBS, "fl": c.FL, "calls": c.Calls[:1]})
 
 	if !ans.Complete || !vh.CanonEq(ans.Alone, ans.Interleaved) {
 		ctx.Res.Disagree(vh.Disagreement{Signature: "C09:model:interleaved-ne-alone:" + c.Kind,
@@ -1157,6 +1176,21 @@ func c09EvaluateX(ctx *vh.Ctx, c *c09Case) error {
 			case o.Err == "gate-timeout":
 				sig = "C09:hang:" + c.Kind + ":gate"
 				what = "a run waited 15 s at a barrier of the harness for runs that neither arrived nor finished"
+			case c.Kind == "inflight" && o.Err == "not-in-flight-together":
+				sig = "C09:liveness:inflight:runs-not-in-flight-together"
+				what = "a tool call of the run waited 12 s for the tool calls of the other concurrent runs to get in flight: something the runs of the process share bounds how many of them make progress at once"
+			case c.Kind == "inflight" && o.Err == "never-returned":
+				sig = "C09:liveness:inflight:run-never-returned"
+				what = "the run had not returned after 25 s although no run depends on another one and the same run alone returns at once (runs blocked on each other)"
+			case c.Kind == "inflight":
+				sig = "C09:interference:inflight:output"
+				what = "the run returned other tool results than alone"
+			case c.Kind == "cbshare" && c09CbForeignHandler(c, i, o.Out+o.Msg):
+				sig = "C09:interference:cbshare:handler-of-another-run-got-events"
+				what = "callbacks of the run were delivered to a handler that only ANOTHER concurrent run passed with WithCallbacks / in its context"
+			case c.Kind == "cbshare":
+				sig = "C09:interference:cbshare:handlers-differ"
+				what = "the callbacks of some unit of the run were not delivered to exactly the handler list in force for this call (own context + own WithCallbacks options)"
 			case c.Kind == "optshare" && o.Err == "" && c09ForeignOpt(c, i, o.Out):
 				sig = "C09:interference:optshare:lambda-saw-foreign-option"
 				what = "a lambda node of the run was executed with a call option that only ANOTHER concurrent run passed"
